@@ -1,29 +1,503 @@
 package main
 
 import (
+	"bytes"
 	"context"
 	"encoding/json"
 	"fmt"
 	"os"
+	"os/exec"
 	"path/filepath"
+	"reflect"
+	"strings"
+	"time"
+	"unicode/utf8"
 
 	"github.com/sharedcode/sop"
 	"github.com/sharedcode/sop/cache"
-	"github.com/sharedcode/sop/common"
+	"github.com/sharedcode/sop/fs"
 	"github.com/sharedcode/sop/infs"
+
+	"verif/harness/hx"
 )
+
+// C13: committing never alters or corrupts a store's configuration.
+//   K1  fs.patchJSONNumericField, json.Marshal(StoreInfo), json string escaping, utf8.Valid
+//   K1' StoreRepository.Update on a real folder (fast path and fallback) vs update_bytes
+//   E2E stores created through infs with hostile names/descriptions/options, k commits,
+//       reopened in a fresh OS process; every StoreInfo field compared (direct oracle).
+
+func main() { hx.Main("c13", runC13) }
 
 func init() {
 	sop.RegisterL2CacheFactory(sop.InMemory, func(sop.TransactionOptions) sop.L2Cache { return cache.NewL2InMemoryCache() })
+	hx.Children["reopen"] = childReopen
 }
 
-func main() {
+// ---------------------------------------------------------------- Coq printing
+
+// coqStoreInfo prints a StoreInfo as the generated record, field by field in declaration
+// order with the same kind mapping as tools/gen/storeinfo.go (a struct change that the
+// translator does not follow makes the cases ill-typed).
+func coqStruct(v reflect.Value, ctor string) string {
+	var sb strings.Builder
+	sb.WriteString("(" + ctor)
+	for i := 0; i < v.NumField(); i++ {
+		f := v.Field(i)
+		sb.WriteString(" ")
+		switch {
+		case f.Type() == reflect.TypeOf(sop.UUID{}):
+			u := f.Interface().(sop.UUID)
+			sb.WriteString(hx.CoqBytes(u[:]))
+		case f.Kind() == reflect.String:
+			sb.WriteString(hx.CoqString(f.String()))
+		case f.Kind() == reflect.Int || f.Kind() == reflect.Int64 || f.Kind() == reflect.Int32:
+			sb.WriteString(hx.CoqZ(f.Int()))
+		case f.Kind() == reflect.Bool:
+			sb.WriteString(hx.CoqBool(f.Bool()))
+		case f.Kind() == reflect.Struct:
+			sb.WriteString(coqStruct(f, "mkStoreCacheConfig"))
+		case f.Kind() == reflect.Slice || f.Kind() == reflect.Map:
+			if f.Len() == 0 {
+				sb.WriteString("[]")
+			} else {
+				raw, err := json.Marshal(f.Interface())
+				if err != nil {
+					panic(err)
+				}
+				sb.WriteString(hx.CoqBytes(raw))
+			}
+		default:
+			panic("unsupported field kind " + f.Kind().String())
+		}
+	}
+	sb.WriteString(")")
+	return sb.String()
+}
+func coqStoreInfo(si sop.StoreInfo) string { return coqStruct(reflect.ValueOf(si), "mkStoreInfo") }
+
+func coqOptBytes(b []byte, ok bool) string { return hx.CoqOpt(hx.CoqBytes(b), ok) }
+
+// ---------------------------------------------------------------- generators
+
+var hostile = []string{
+	"count", "timestamp", `"count"`, `"timestamp"`, `"count":`, `"count":7`, `x"count":7,"y`, `count":`, `"count`,
+	`\`, `a\`, `\"`, `\\"count\":`, `","count":99,"timestamp":1,"x":"`, `{"count":5}`, `[1,2]`, `}`, `{`, `,`, `:`, ` `,
+	"\n", "\t", "a\"\\", "<&>", "\u2028", "\u2029", "\u2028count", "é", "日本", "\U0001F600", "\x7f", "\x01", "\b\f",
+	"slot_length", "name", `"name":"count"`, "is_unique", "count ", " count", "Count", "counts", "\"count\" :", "timestamp\":0",
+}
+
+func genText(r *hx.Rng, max int) string {
+	var sb strings.Builder
+	n := 1 + r.Intn(4)
+	for i := 0; i < n; i++ {
+		switch r.Intn(10) {
+		case 0, 1, 2, 3:
+			sb.WriteString(hx.Pick(r, hostile))
+		case 4:
+			sb.WriteString(hx.Pick(r, []string{"s1", "store", "a", "x_y", "orders-2024", "K"}))
+		case 5:
+			sb.WriteRune(rune(hx.Pick(r, []int{0x22, 0x5c, 0x2c, 0x3a, 0x7b, 0x7d, 0x5b, 0x5d, 0x20, 0x09, 0x0a, 0x0d, 0x3c, 0x3e, 0x26, 0x08, 0x0c, 0x1f, 0x7f, 0x80, 0x7ff, 0x800, 0x2027, 0x2028, 0x2029, 0x202a, 0xe2, 0xfffd, 0xffff, 0x10000, 0x10ffff})))
+		case 6:
+			sb.WriteRune(rune(r.Intn(0x250)))
+		default:
+			for k := r.Intn(6); k >= 0; k-- {
+				const al = "abcdefghijklmnopqrstuvwxyz0123456789_\"\\:,{}"
+				sb.WriteByte(al[r.Intn(len(al))])
+			}
+		}
+	}
+	s := strings.ToValidUTF8(sb.String(), "?")
+	for len(s) > max {
+		_, sz := utf8.DecodeLastRuneInString(s)
+		s = s[:len(s)-sz]
+	}
+	return s
+}
+
+// genName: any valid UTF-8 text that is a valid single folder name on Linux.
+func genName(r *hx.Rng) string {
+	for {
+		s := genText(r, 80)
+		s = strings.NewReplacer("/", "_", "\x00", "_").Replace(s)
+		if s == "" || s == "." || s == ".." {
+			continue
+		}
+		return s
+	}
+}
+
+var edgeI64 = []int64{0, 1, -1, 7, 9, 10, 99, 100, 12345, 1790036301493, 1<<63 - 1, -1 << 63, 1 << 32, -(1 << 40)}
+
+func genI64(r *hx.Rng) int64 {
+	if r.Chance(60) {
+		return hx.Pick(r, edgeI64)
+	}
+	return int64(r.U64()) >> uint(r.Intn(64))
+}
+
+func genCustom(r *hx.Rng) map[string]any {
+	if r.Chance(55) {
+		return nil
+	}
+	m := map[string]any{}
+	for i := r.Intn(3); i >= 0; i-- {
+		k := hx.Pick(r, []string{"count", "timestamp", "k", `"count":`, "a\"b", "nested"})
+		switch r.Intn(4) {
+		case 0:
+			m[k] = float64(r.Intn(1000))
+		case 1:
+			m[k] = genText(r, 20)
+		case 2:
+			m[k] = map[string]any{"count": float64(r.Intn(9)), "timestamp": "x"}
+		default:
+			m[k] = []any{float64(1), "count", true}
+		}
+	}
+	return m
+}
+
+func genStoreInfo(r *hx.Rng) sop.StoreInfo {
+	si := sop.StoreInfo{
+		Name: genName(r), SlotLength: int(genI64(r) % 20001), IsUnique: r.Bool(), Description: genText(r, 200),
+		RegistryTable: genText(r, 60), BlobTable: genText(r, 60), Count: genI64(r), CountDelta: genI64(r) % 1000, Timestamp: genI64(r),
+		IsValueDataInNodeSegment: r.Bool(), IsValueDataActivelyPersisted: r.Bool(), IsValueDataGloballyCached: r.Bool(), LeafLoadBalancing: r.Bool(),
+		IsPrimitiveKey: r.Bool(), NeedsMetaDataSave: r.Chance(20),
+		CacheConfig: sop.StoreCacheConfig{RegistryCacheDuration: time.Duration(genI64(r)), IsRegistryCacheTTL: r.Bool(), NodeCacheDuration: time.Duration(genI64(r)),
+			IsNodeCacheTTL: r.Bool(), ValueDataCacheDuration: time.Duration(genI64(r)), IsValueDataCacheTTL: r.Bool(), StoreInfoCacheDuration: time.Duration(genI64(r)), IsStoreInfoCacheTTL: r.Bool()},
+	}
+	copy(si.RootNodeID[:], r.Bytes(16))
+	if r.Chance(20) {
+		si.RootNodeID = sop.NilUUID
+	}
+	if r.Chance(40) {
+		si.MapKeyIndexSpecification = genText(r, 40)
+	}
+	if r.Chance(40) {
+		si.CELexpression = genText(r, 40)
+	}
+	if r.Chance(70) {
+		si.Version = hx.Pick(r, []string{"2.3.3", "count", `"count":1`})
+	}
+	if r.Chance(40) {
+		si.Relations = []sop.Relation{{SourceFields: []string{"count", genText(r, 10)}, TargetStore: genName(r), TargetFields: []string{"timestamp"}}}
+	}
+	if r.Chance(40) {
+		si.Schema = map[string]string{"count": "number", genText(r, 8): "string"}
+	}
+	if r.Chance(40) {
+		si.KeyFields = []string{"count", "timestamp"}
+	}
+	if r.Chance(40) {
+		si.ValueFields = []string{genText(r, 10)}
+	}
+	si.CustomData = genCustom(r)
+	return si
+}
+
+// ---------------------------------------------------------------- inputs (replayable)
+
+type storeSpec struct {
+	Name, Description        string
+	SlotLength               int
+	IsUnique, InNode, Active bool
+	Global, LeafLB           bool
+	CacheMinutes             int
+	CustomData               map[string]any
+	Relations                []sop.Relation
+}
+
+type c13Input struct {
+	Kind    string         `json:"kind"`
+	Data    []byte         `json:"data,omitempty"`
+	Field   string         `json:"field,omitempty"`
+	Value   int64          `json:"value,omitempty"`
+	Text    []byte         `json:"text,omitempty"`
+	Info    *sop.StoreInfo `json:"info,omitempty"`
+	Extra   map[string]int64 `json:"extra,omitempty"` // json:"-" fields of Info
+	Store   *storeSpec     `json:"store,omitempty"`
+	Commits []int          `json:"commits,omitempty"` // e2e: items added (+) / removed (-) per commit
+	Steps   []repoStep     `json:"steps,omitempty"`   // repo: Update calls
+}
+
+type repoStep struct {
+	Delta     int64  `json:"delta"`
+	Timestamp int64  `json:"ts"`
+	NeedsSave bool   `json:"needs_save"`
+	Damage    string `json:"damage,omitempty"` // how the file is altered before this step (forces the fallback)
+}
+
+// ---------------------------------------------------------------- K1 cases
+
+func c13Patch(res *hx.Result, data []byte, field string, v int64) {
+	in := c13Input{Kind: "patch", Data: data, Field: field, Value: v}
+	out, err := func() (o []byte, e error) {
+		defer func() {
+			if p := recover(); p != nil {
+				e = fmt.Errorf("panic: %v", p)
+			}
+		}()
+		return fs.VerifPatchJSONNumericField(data, field, v)
+	}()
+	res.Seen("patch:"+field+":"+string(data)+fmt.Sprint(v), len(data) > 2)
+	if err != nil {
+		res.Count("patch.error")
+	} else {
+		res.Count("patch.ok")
+	}
+	res.AddCase(fmt.Sprintf("PatchCase %s %s %s %s", hx.CoqBytes(data), hx.CoqString(field), hx.CoqZ(v), coqOptBytes(out, err == nil)), in)
+}
+
+// configJSON is the canonical form of everything but count and timestamp.
+func configJSON(si sop.StoreInfo) string {
+	si.Count, si.Timestamp, si.CountDelta, si.NeedsMetaDataSave = 0, 0, 0, false
+	b, _ := json.Marshal(si)
+	return string(b)
+}
+
+func mentions(si sop.StoreInfo) string {
+	for _, w := range []string{"count", "timestamp"} {
+		if si.Name == w || si.Description == w || si.RegistryTable == w || si.BlobTable == w {
+			return "equals-field-name"
+		}
+	}
+	for _, w := range []string{"count", "timestamp"} {
+		if strings.Contains(si.Name+si.Description+si.RegistryTable+si.BlobTable, w) {
+			return "mentions-field-name"
+		}
+	}
+	return "plain"
+}
+
+// c13Ser: json.Marshal(StoreInfo) vs ser; then the patch of count and timestamp on those bytes
+// (direct oracle: re-parsing gives the same configuration with the new numbers).
+func c13Ser(res *hx.Result, si sop.StoreInfo, c, t int64) {
+	in := c13Input{Kind: "ser", Info: &si, Value: c, Extra: map[string]int64{"ts": t, "delta": si.CountDelta}}
+	if si.NeedsMetaDataSave {
+		in.Extra["needs"] = 1
+	}
+	b, err := json.Marshal(si)
+	if err != nil {
+		res.Notes = append(res.Notes, "marshal failed: "+err.Error())
+		return
+	}
+	res.Seen("ser:"+string(b), true)
+	res.Count("ser." + mentions(si))
+	res.AddCase(fmt.Sprintf("SerCase %s %s", coqStoreInfo(si), hx.CoqBytes(b)), in)
+	p1, e1 := fs.VerifPatchJSONNumericField(b, fs.VerifFieldCount, c)
+	res.AddCase(fmt.Sprintf("PatchCase %s %s %s %s", hx.CoqBytes(b), hx.CoqString(fs.VerifFieldCount), hx.CoqZ(c), coqOptBytes(p1, e1 == nil)), in)
+	var p2 []byte
+	var e2 error
+	if e1 == nil {
+		p2, e2 = fs.VerifPatchJSONNumericField(p1, fs.VerifFieldTimestamp, t)
+		res.AddCase(fmt.Sprintf("PatchCase %s %s %s %s", hx.CoqBytes(p1), hx.CoqString(fs.VerifFieldTimestamp), hx.CoqZ(t), coqOptBytes(p2, e2 == nil)), in)
+	}
+	// direct oracle
+	if e1 != nil || e2 != nil {
+		// an error is safe (the caller falls back to a full re-marshal) but on Marshal output it must not happen
+		res.Fail("patch-refuses-marshal-output", fmt.Sprintf("patch of a freshly marshalled StoreInfo %q failed: %v %v", si.Name, e1, e2), in)
+		return
+	}
+	var back sop.StoreInfo
+	if err := json.Unmarshal(p2, &back); err != nil {
+		res.Fail(sigFor(si, "patch-corrupts-json"), fmt.Sprintf("store %q: patched storeinfo no longer parses: %v", si.Name, err), in)
+		return
+	}
+	var orig sop.StoreInfo
+	json.Unmarshal(b, &orig)
+	if configJSON(back) != configJSON(orig) || back.Count != c || back.Timestamp != t {
+		res.Fail(sigFor(si, "patch-alters-config"), fmt.Sprintf("store %q description %q: after patching count=%d timestamp=%d the record reads count=%d timestamp=%d slot_length=%d (was %d), config changed=%v",
+			si.Name, si.Description, c, t, back.Count, back.Timestamp, back.SlotLength, orig.SlotLength, configJSON(back) != configJSON(orig)), in)
+	}
+}
+
+// sigFor gives the failure class: the S4 pattern (a string VALUE in front of the real member
+// equals a patched member name) gets its own signature; anything else is a different violation.
+func sigFor(si sop.StoreInfo, base string) string {
+	if mentions(si) == "equals-field-name" {
+		return "S4-string-value-equals-field-name"
+	}
+	return base
+}
+
+func c13Str(res *hx.Result, s string) {
+	b, _ := json.Marshal(s)
+	res.Seen("str:"+s, len(s) > 0)
+	res.Count("str")
+	res.AddCase(fmt.Sprintf("StrCase %s %s", hx.CoqString(s), hx.CoqBytes(b)), c13Input{Kind: "str", Text: []byte(s)})
+}
+
+func c13Utf8(res *hx.Result, b []byte) {
+	res.Seen(fmt.Sprintf("utf8:%x", b), len(b) > 0)
+	res.Count("utf8")
+	res.AddCase(fmt.Sprintf("Utf8Case %s %s", hx.CoqBytes(b), hx.CoqBool(utf8.Valid(b))), c13Input{Kind: "utf8", Text: b})
+}
+
+// ---------------------------------------------------------------- StoreRepository.Update on a real folder
+
+func workDir(tag string) string {
+	base := os.Getenv("VERIF_WORK")
+	if base == "" {
+		base = os.TempDir()
+	}
+	d, err := os.MkdirTemp(base, tag)
+	if err != nil {
+		panic(err)
+	}
+	return d
+}
+
+func c13Repo(res *hx.Result, si sop.StoreInfo, steps []repoStep) {
+	in := c13Input{Kind: "repo", Info: &si, Steps: steps}
 	ctx := context.Background()
-	dir, _ := os.MkdirTemp("/var/tmp/C13", "probe")
+	dir := workDir("repo")
 	defer os.RemoveAll(dir)
-	name := os.Args[1]
+	l2 := cache.NewL2InMemoryCache()
+	rt, err := fs.NewReplicationTracker(ctx, []string{dir}, false, l2)
+	if err != nil {
+		panic(err)
+	}
+	sr, err := fs.NewStoreRepository(ctx, rt, nil, l2, 0)
+	if err != nil {
+		panic(err)
+	}
+	si.CountDelta, si.NeedsMetaDataSave = 0, false
+	si.CacheConfig.StoreInfoCacheDuration = 10 * time.Minute // GetWithTTL is always served from the cache
+	if err := sr.Add(ctx, si); err != nil {
+		res.Notes = append(res.Notes, fmt.Sprintf("repo Add(%q) failed: %v", si.Name, err))
+		res.Count("repo.add_error")
+		return
+	}
+	path := filepath.Join(dir, si.Name, fs.StoreInfoFilename)
+	file, _ := os.ReadFile(path)
+	want, _ := json.Marshal(si)
+	if !bytes.Equal(file, want) {
+		res.Fail("add-writes-other-bytes", fmt.Sprintf("store %q: Add wrote %q", si.Name, file), in)
+	}
+	res.Seen("repo:"+string(want)+fmt.Sprint(steps), true)
+	count := si.Count
+	for _, st := range steps {
+		switch st.Damage {
+		case "drop-count":
+			file = bytes.Replace(file, []byte(`"count":`), []byte(`"kount":`), 1)
+			os.WriteFile(path, file, 0o644)
+		case "truncate":
+			file = file[:len(file)/2]
+			os.WriteFile(path, file, 0o644)
+		case "spaces":
+			var v map[string]json.RawMessage
+			if json.Unmarshal(file, &v) == nil {
+				if ind, err := json.MarshalIndent(json.RawMessage(file), "", "  "); err == nil {
+					file = ind
+					os.WriteFile(path, file, 0o644)
+				}
+			}
+		}
+		caller := si
+		caller.Count, caller.CountDelta, caller.Timestamp, caller.NeedsMetaDataSave = 12345, st.Delta, st.Timestamp, st.NeedsSave
+		cur := sop.StoreInfo{Name: si.Name, Count: count}
+		arg := []sop.StoreInfo{caller}
+		if _, err := sr.Update(ctx, arg); err != nil {
+			res.Notes = append(res.Notes, fmt.Sprintf("repo Update(%q) failed: %v", si.Name, err))
+			res.Count("repo.update_error")
+			return
+		}
+		after, _ := os.ReadFile(path)
+		res.Count("repo.update." + map[bool]string{true: "needs_save", false: "fast"}[st.NeedsSave] + map[bool]string{true: ".damaged", false: ""}[st.Damage != ""])
+		res.AddCase(fmt.Sprintf("UpdCase %s %s %s %s", hx.CoqBytes(file), coqStoreInfo(cur), coqStoreInfo(caller), hx.CoqBytes(after)), in)
+		count += st.Delta
+		// direct oracle: the file parses to the same configuration with the new count and timestamp
+		var back sop.StoreInfo
+		if err := json.Unmarshal(after, &back); err != nil && (st.Damage == "truncate" || st.Damage == "drop-count") {
+			return // the harness broke the file itself; only the correspondence case applies
+		}
+		if err := json.Unmarshal(after, &back); err != nil {
+			res.Fail(sigFor(si, "update-corrupts-json"), fmt.Sprintf("store %q: storeinfo.txt no longer parses after Update: %v", si.Name, err), in)
+			return
+		}
+		var orig sop.StoreInfo
+		json.Unmarshal(want, &orig)
+		if configJSON(back) != configJSON(orig) || back.Count != count || back.Timestamp != st.Timestamp {
+			res.Fail(sigFor(si, "update-alters-config"), fmt.Sprintf("store %q description %q: after Update(delta=%d, ts=%d) storeinfo.txt has count=%d (want %d) timestamp=%d slot_length=%d (created with %d)",
+				si.Name, si.Description, st.Delta, st.Timestamp, back.Count, count, back.Timestamp, back.SlotLength, orig.SlotLength), in)
+			return
+		}
+		file = after
+	}
+}
+
+// ---------------------------------------------------------------- end to end through infs
+
+func (s storeSpec) options() sop.StoreOptions {
+	so := sop.StoreOptions{Name: s.Name, Description: s.Description, SlotLength: s.SlotLength, IsUnique: s.IsUnique,
+		IsValueDataInNodeSegment: s.InNode, IsValueDataActivelyPersisted: s.Active, IsValueDataGloballyCached: s.Global,
+		LeafLoadBalancing: s.LeafLB, CustomData: s.CustomData, Relations: s.Relations}
+	if s.CacheMinutes > 0 {
+		so.CacheConfig = sop.NewStoreCacheConfig(time.Duration(s.CacheMinutes)*time.Minute, s.CacheMinutes%2 == 0)
+	}
+	return so
+}
+
+func genSpec(r *hx.Rng) storeSpec {
+	s := storeSpec{Name: genName(r), Description: genText(r, 120), SlotLength: hx.Pick(r, []int{2, 4, 8, 8, 10, 50, 100, 2000, 7, 0}),
+		IsUnique: r.Bool(), InNode: r.Bool(), Active: r.Chance(30), Global: r.Chance(30), LeafLB: r.Chance(30), CustomData: genCustom(r)}
+	if r.Chance(40) {
+		s.CacheMinutes = 5 + r.Intn(30)
+	}
+	if r.Chance(25) {
+		s.Relations = []sop.Relation{{SourceFields: []string{"count"}, TargetStore: "timestamp", TargetFields: []string{"count"}}}
+	}
+	return s
+}
+
+func childReopen(args []string) int {
+	// args: dir name -> prints {"repo":<StoreInfo via OpenBtree>, "file":<raw storeinfo.txt parsed>}
+	ctx := context.Background()
+	dir, name := args[0], args[1]
+	t, err := infs.NewTransaction(ctx, sop.TransactionOptions{StoresFolders: []string{dir}, Mode: sop.ForReading, MaxTime: -1, CacheType: sop.InMemory})
+	if err != nil {
+		fmt.Println(`{"error":"` + err.Error() + `"}`)
+		return 0
+	}
+	if err := t.Begin(ctx); err != nil {
+		fmt.Println(`{"error":"begin"}`)
+		return 0
+	}
+	out := map[string]any{}
+	b3, err := infs.OpenBtree[int, string](ctx, name, t, nil)
+	if err != nil {
+		out["error"] = "open: " + err.Error()
+	} else {
+		out["repo"] = b3.GetStoreInfo()
+		n := 0
+		if ok, _ := b3.First(ctx); ok {
+			for {
+				n++
+				if ok, _ := b3.Next(ctx); !ok {
+					break
+				}
+			}
+		}
+		out["items"] = n
+	}
+	t.Commit(ctx)
+	js, _ := json.Marshal(out)
+	fmt.Println(string(js))
+	return 0
+}
+
+func c13E2E(res *hx.Result, spec storeSpec, commits []int) {
+	in := c13Input{Kind: "e2e", Store: &spec, Commits: commits}
+	ctx := context.Background()
+	dir := workDir("e2e")
+	defer os.RemoveAll(dir)
 	opts := sop.TransactionOptions{StoresFolders: []string{dir}, Mode: sop.ForWriting, MaxTime: -1, CacheType: sop.InMemory}
-	for k := 0; k < 3; k++ {
+	path := filepath.Join(dir, spec.Name, fs.StoreInfoFilename)
+	var created sop.StoreInfo
+	next, items := 0, 0
+	res.Seen(fmt.Sprintf("e2e:%+v:%v", spec, commits), true)
+	for k, n := range commits {
+		before, _ := os.ReadFile(path)
 		t, err := infs.NewTransaction(ctx, opts)
 		if err != nil {
 			panic(err)
@@ -31,19 +505,218 @@ func main() {
 		if err := t.Begin(ctx); err != nil {
 			panic(err)
 		}
-		b3, err := infs.NewBtree[int, string](ctx, sop.StoreOptions{Name: name, SlotLength: 8, Description: "d"}, t, nil)
+		b3, err := infs.NewBtree[int, string](ctx, spec.options(), t, nil)
 		if err != nil {
-			panic(err)
+			t.Rollback(ctx)
+			if k > 0 {
+				res.Fail(sigForSpec(spec, "reopen-fails"), fmt.Sprintf("store %q: opening the store again for commit %d failed: %v", spec.Name, k, err), in)
+				return
+			}
+			res.Notes = append(res.Notes, fmt.Sprintf("e2e NewBtree(%q) failed: %v", spec.Name, err))
+			res.Count("e2e.create_error")
+			return
 		}
-		for i := 0; i < 3; i++ {
-			b3.Add(ctx, k*10+i, "v")
+		if n >= 0 {
+			for i := 0; i < n; i++ {
+				b3.Add(ctx, next, "v")
+				next++
+				items++
+			}
+		} else {
+			for i := 0; i < -n && items > 0; i++ {
+				if ok, _ := b3.First(ctx); ok {
+					if ok, _ := b3.RemoveCurrentItem(ctx); ok {
+						items--
+					}
+				}
+			}
 		}
+		items = int(b3.Count()) // what this transaction itself sees; item bookkeeping of removals is C06/C17 territory
 		if err := t.Commit(ctx); err != nil {
-			panic(err)
+			res.Notes = append(res.Notes, fmt.Sprintf("e2e Commit(%q) failed: %v", spec.Name, err))
+			res.Count("e2e.commit_error")
+			return
 		}
-		ba, _ := os.ReadFile(filepath.Join(dir, name, "storeinfo.txt"))
-		fmt.Println(string(ba))
-		_ = common.Transaction{}
-		_ = json.Marshal
+		after, _ := os.ReadFile(path)
+		if k == 0 {
+			created = b3.GetStoreInfo()
+			// the created record reflects the options
+			if created.Name != spec.Name || created.Description != spec.Description || created.IsUnique != spec.IsUnique {
+				res.Fail("create-ignores-options", fmt.Sprintf("created %+v from %+v", created, spec), in)
+			}
+		} else if len(before) > 0 {
+			// correspondence: this commit's Update, replayed by the model on the bytes found before it
+			var cur, aft sop.StoreInfo
+			if json.Unmarshal(before, &cur) == nil && json.Unmarshal(after, &aft) == nil {
+				caller := created
+				caller.CountDelta, caller.Timestamp = int64(items)-cur.Count, aft.Timestamp
+				res.AddCase(fmt.Sprintf("UpdCase %s %s %s %s", hx.CoqBytes(before), coqStoreInfo(sop.StoreInfo{Name: cur.Name, Count: cur.Count}), coqStoreInfo(caller), hx.CoqBytes(after)), in)
+			}
+		}
+		res.Count("e2e.commit")
 	}
+	// reopen in a fresh OS process
+	cmd := exec.Command(os.Args[0], "child:reopen", dir, spec.Name)
+	outb, err := cmd.Output()
+	if err != nil {
+		res.Notes = append(res.Notes, "reopen child failed: "+err.Error())
+		return
+	}
+	var got struct {
+		Error string         `json:"error"`
+		Repo  *sop.StoreInfo `json:"repo"`
+		Items int            `json:"items"`
+	}
+	if err := json.Unmarshal(bytes.TrimSpace(outb), &got); err != nil || got.Repo == nil {
+		res.Fail(sigForSpec(spec, "reopen-fails"), fmt.Sprintf("store %q: reopen in a fresh process failed: %s %v", spec.Name, got.Error, err), in)
+		return
+	}
+	res.Count("e2e.reopen." + mentions(sop.StoreInfo{Name: spec.Name, Description: spec.Description, RegistryTable: spec.Name, BlobTable: spec.Name}))
+	var want sop.StoreInfo
+	cj, _ := json.Marshal(created)
+	json.Unmarshal(cj, &want) // same JSON normalisation of custom data as the reopened record
+	if configJSON(*got.Repo) != configJSON(want) || got.Repo.Count != int64(items) || got.Items != items {
+		res.Fail(sigForSpec(spec, "reopen-differs"), fmt.Sprintf("store %q description %q after %d commits: reopened slot_length=%d count=%d items=%d; created slot_length=%d, expected count=%d; config equal=%v",
+			spec.Name, spec.Description, len(commits), got.Repo.SlotLength, got.Repo.Count, got.Items, created.SlotLength, items, configJSON(*got.Repo) == configJSON(want)), in)
+	}
+	res.Sample(map[string]any{"kind": "e2e", "name": spec.Name, "description": spec.Description, "commits": commits, "reopened_count": got.Repo.Count})
+}
+
+func sigForSpec(s storeSpec, base string) string {
+	return sigFor(sop.StoreInfo{Name: s.Name, Description: s.Description, RegistryTable: s.Name, BlobTable: s.Name}, base)
+}
+
+// ---------------------------------------------------------------- hand-made JSON for the patcher
+
+func genJSONDoc(r *hx.Rng) []byte {
+	f := hx.Pick(r, []string{"count", "timestamp"})
+	docs := []string{
+		`{"count":1}`, `{"count" : 1 , "timestamp":2}`, `{"a":"count","count":5}`, `{"a":{"count":1},"count":2}`, `{"a":[{"count":1}],"count":2,"timestamp":3}`,
+		`{"a":"\"count\":9","count":2}`, `{"a":"x\\","count":2}`, `{"count":"str"}`, `{"count":}`, `{"count"`, `{"count":`, `{"count":1`, `count`, ``, `{}`, `"count":1`,
+		`[{"count":1}]`, `{"a":"count"}`, `{"a":"count" }`, `{"a":"count":3}`, `{"x":"\`, `{"x":"abc`, `{"x":"a\"`, `{ "count"` + "\n\t:\r 12 }", `{"count":-5,"timestamp":-9223372036854775808}`,
+		`{"Count":1,"count":2}`, `{"count":1,"count":2}`, `{"timestamp":1,"count":2}`, `{"a":"}","count":2}`, `{"a":"{","count":2}`, `{"a":"[","count":2}`, `}{"count":1}`, `{{"count":1}}`, `{"a":]"count":1}`,
+		`{"count":1.5e3}`, `{"count":null}`, `{"count":[1,2]}`, `{"count":{"a":1}}`, `{"\u0063ount":1,"count":2}`,
+	}
+	d := hx.Pick(r, docs)
+	if r.Chance(30) {
+		d = strings.Replace(d, "count", f, -1)
+	}
+	b := []byte(d)
+	if r.Chance(25) && len(b) > 0 { // byte-level damage
+		switch r.Intn(3) {
+		case 0:
+			b = b[:r.Intn(len(b))]
+		case 1:
+			b[r.Intn(len(b))] = "\"\\:,{}[] c"[r.Intn(10)]
+		default:
+			i := r.Intn(len(b))
+			b = append(b[:i:i], append([]byte{"\"\\:,{}[] c"[r.Intn(10)]}, b[i:]...)...)
+		}
+	}
+	return b
+}
+
+// ---------------------------------------------------------------- run
+
+// corpus: runs first on every run, includes the S4 inputs (kept forever).
+func corpus(res *hx.Result) {
+	base := sop.StoreInfo{Name: "count", SlotLength: 8, Description: "d", RegistryTable: "count", BlobTable: "count", Count: 3, Timestamp: 1790036301493, Version: "2.3.3"}
+	c13Ser(res, base, 6, 1790036301495)
+	ts := base
+	ts.Name, ts.RegistryTable, ts.BlobTable = "timestamp", "timestamp", "timestamp"
+	c13Ser(res, ts, 6, 1790036301495)
+	d := base
+	d.Name, d.RegistryTable, d.BlobTable, d.Description = "s1", "s1", "s1", "count"
+	c13Ser(res, d, 6, 1790036301495)
+	q := d
+	q.Description = `he said "count": 5, "timestamp": 6 \`
+	c13Ser(res, q, 7, 8)
+	c13Repo(res, base, []repoStep{{Delta: 3, Timestamp: 1790036301495}, {Delta: 3, Timestamp: 1790036301508}})
+	c13E2E(res, storeSpec{Name: "count", Description: "d", SlotLength: 8}, []int{3, 3, 3})
+	c13E2E(res, storeSpec{Name: "s1", Description: "timestamp", SlotLength: 8}, []int{3, 3})
+	c13E2E(res, storeSpec{Name: "s2", Description: `"count":1,"timestamp":2`, SlotLength: 8, CustomData: map[string]any{"count": float64(4)}}, []int{3, -1, 2})
+}
+
+func runC13(cfg *hx.RunCfg) (*hx.Result, error) {
+	res := hx.NewResult("C13")
+	res.Imports = []string{"Lib.Bytes", "StoreInfoPatchLib", "Gen.StoreInfoFields", "StoreInfoPatch", "Corr.C13"}
+	res.CaseType = "c13case"
+	res.Checker = "c13_check"
+	res.Rule = "corpus (S4 inputs) then seeded generation: StoreInfo records whose name/description/table names are built from fragments mentioning the patched member names, quotes, backslashes, JSON punctuation, control and multi-byte characters (valid UTF-8, valid folder names), all option flags, relations/schema/custom data; hand-made and damaged JSON documents for the patcher; StoreRepository.Update programs on a real folder incl. forced fallback; end-to-end infs stores with k commits reopened in a fresh process. distinct = distinct serialised input; non-trivial = non-empty document / string"
+	if cfg.Replay != "" {
+		raw, err := os.ReadFile(cfg.Replay)
+		if err != nil {
+			return nil, err
+		}
+		var rp struct {
+			Input c13Input `json:"input"`
+		}
+		if err := json.Unmarshal(raw, &rp); err != nil {
+			return nil, err
+		}
+		in := rp.Input
+		switch in.Kind {
+		case "patch":
+			c13Patch(res, in.Data, in.Field, in.Value)
+		case "ser":
+			in.Info.CountDelta, in.Info.NeedsMetaDataSave = in.Extra["delta"], in.Extra["needs"] == 1
+			c13Ser(res, *in.Info, in.Value, in.Extra["ts"])
+		case "str":
+			c13Str(res, string(in.Text))
+		case "utf8":
+			c13Utf8(res, in.Text)
+		case "repo":
+			c13Repo(res, *in.Info, in.Steps)
+		case "e2e":
+			c13E2E(res, *in.Store, in.Commits)
+		}
+		return res, nil
+	}
+	nK1, nRepo, nE2E := 700, 60, 24
+	if cfg.Tier == "thorough" {
+		nK1, nRepo, nE2E = 8000, 600, 200
+	}
+	if cfg.N > 0 {
+		nK1, nRepo, nE2E = cfg.N, cfg.N/10, cfg.N/30
+	}
+	r := hx.NewRng(cfg.Seed)
+	corpus(res)
+	for _, h := range hostile {
+		c13Str(res, h)
+	}
+	for i := 0; i < nK1; i++ {
+		switch k := r.Intn(10); {
+		case k < 4:
+			c13Ser(res, genStoreInfo(r), genI64(r), genI64(r))
+		case k < 7:
+			c13Patch(res, genJSONDoc(r), hx.Pick(r, []string{"count", "timestamp", "a", ""}), genI64(r))
+		case k < 9:
+			c13Str(res, genText(r, 60))
+		default:
+			b := []byte(genText(r, 12))
+			if r.Chance(60) && len(b) > 0 {
+				b[r.Intn(len(b))] = byte(hx.Pick(r, []int{0x80, 0xbf, 0xc0, 0xc2, 0xe0, 0xed, 0xa0, 0xf0, 0xf4, 0x90, 0xf5, 0xff}))
+			}
+			c13Utf8(res, b)
+		}
+	}
+	damages := []string{"", "", "", "drop-count", "truncate", "spaces"}
+	for i := 0; i < nRepo; i++ {
+		si := genStoreInfo(r)
+		si.CELexpression = ""
+		var steps []repoStep
+		for k := 1 + r.Intn(4); k > 0; k-- {
+			steps = append(steps, repoStep{Delta: int64(r.Intn(2000)) - 500, Timestamp: genI64(r), NeedsSave: r.Chance(15), Damage: hx.Pick(r, damages)})
+		}
+		c13Repo(res, si, steps)
+	}
+	for i := 0; i < nE2E; i++ {
+		var commits []int
+		for k := 2 + r.Intn(3); k > 0; k-- {
+			commits = append(commits, r.Intn(6)-1)
+		}
+		commits[0] = 1 + r.Intn(4)
+		c13E2E(res, genSpec(r), commits)
+	}
+	return res, nil
 }
